@@ -50,6 +50,60 @@ def two_splits(np, a, b):
     return out
 
 
+def three_splits(np, a, b):
+    """a runs i points, b j points, a k more points, then b to its end and
+    a to its end: four context switches (a creation race that is decided
+    only after both requests have looked, and one has created)."""
+    out = []
+    # the look-then-create windows are at the start of a request: keep the
+    # first and third leg short, enumerate the middle one completely
+    for i in range(1, min(np[a], 4)):
+        for j in range(1, np[b] + 1):
+            for k in range(1, min(np[a] - i, 3) + 1):
+                out.append([a] * i + [b] * j + [a] * k + [b] * BIG +
+                           [a] * BIG)
+    return out
+
+
+def write_window_splits(wp, np, a, b):
+    """Three-splits aimed at look-then-act windows: a is stopped right
+    before each of its own writes, b runs until right after each of ITS
+    writes, a then makes 1-3 more transactions, b finishes, a finishes."""
+    out = []
+    for wa in wp[a]:
+        i = wa - 1
+        if i < 1:
+            continue
+        for wb in wp[b]:
+            for j in (wb, wb + 1):
+                if j > np[b]:
+                    continue
+                for k in (1, 2, 3):
+                    if i + k > np[a]:
+                        continue
+                    out.append([a] * i + [b] * j + [a] * k + [b] * BIG +
+                               [a] * BIG)
+    return out
+
+
+def locksteps(names):
+    """Round-robin interleavings: the requests advance s transactions at a
+    time in turn, after an initial lead of o transactions for the first one.
+    Both requests are then inside the same look-then-act window (both have
+    looked before either acts), at every depth of the request."""
+    out = []
+    orders = [list(names), list(reversed(names))]
+    for order in orders:
+        for lead in (0, 1, 2, 3):
+            for step in (1, 2):
+                s = [order[0]] * lead
+                for _ in range(BIG):
+                    for n in order[1:] + order[:1]:
+                        s += [n] * step
+                out.append(s)
+    return out
+
+
 def free_schedule(draw, names):
     return draw(st.lists(st.sampled_from(names), min_size=2, max_size=30))
 
@@ -82,6 +136,22 @@ def run_cases(ctx, gen_case, oracle, examples, free=6, splits=8,
                 ts = data.draw(st.lists(st.sampled_from(ts), min_size=splits,
                                         max_size=splits, unique_by=id))
             scheds += ts
+        if len(names) == 2:
+            wp = {n: sched.write_points(svc, snap, reqs[n]) for n in names}
+            ww = write_window_splits(wp, np, names[0], names[1]) + \
+                write_window_splits(wp, np, names[1], names[0])
+            kw = 400 if ctx.thorough else 2 * splits
+            if len(ww) > kw:
+                ww = data.draw(st.lists(st.sampled_from(ww), min_size=kw,
+                                        max_size=kw, unique_by=id))
+            t3 = three_splits(np, names[0], names[1]) + \
+                three_splits(np, names[1], names[0])
+            k3 = 80 if ctx.thorough else splits
+            if len(t3) > k3:
+                t3 = data.draw(st.lists(st.sampled_from(t3), min_size=k3,
+                                        max_size=k3, unique_by=id))
+            scheds += ww + t3
+        scheds += locksteps(names)
         for _ in range(free):
             scheds.append(free_schedule(data.draw, names))
         if len(names) == 3 and not ctx.thorough and len(scheds) > 40:
